@@ -45,6 +45,18 @@ def reply (toks : List String) : String :=
       let v := WireExpr.langsValue cs
       s!"{WireExpr.valueTok (.str v)} {if Category.validate .language v then 1 else 0}"
     | none => "bad-request"
+  | ["sn_encode", h, t] =>
+    match Wire.strOfHex h with
+    | some n => Wire.hexOfStr (StreamName.encode n (t == "1"))
+    | none => "bad-request"
+  | ["sn_decode", h] =>
+    match Wire.strOfHex h with
+    | some n => let (d, t) := StreamName.decode n; s!"{Wire.hexOfStr d} {if t then 1 else 0}"
+    | none => "bad-request"
+  | ["sn_valid", h, t] =>
+    match Wire.strOfHex h with
+    | some n => if StreamName.isValid n (t == "1") then "1" else "0"
+    | none => "bad-request"
   | ["cp_id", name] =>
     match Gen.cpVariants.idxOf? name with
     | some i => match CodePage.id i with
